@@ -15,7 +15,7 @@ mod c01;
 mod c02;
 #[cfg(all(kani, feature = "c03"))]
 mod c03;
-#[cfg(all(kani, any(feature = "c04", feature = "c03")))]
+#[cfg(all(kani, any(feature = "c04", feature = "c03", feature = "c02")))]
 mod c04;
 #[cfg(all(kani, feature = "c05"))]
 mod c05;
